@@ -232,6 +232,33 @@ Example C03_desugar_fails_iff_sheet_fails_nonvacuous :
 Proof. exact DesugarWitness.desugar_error_iff_nonvacuous. Qed.
 Print Assumptions C03_desugar_fails_iff_sheet_fails_nonvacuous.
 
+(* the two halves of the proof, as statements of their own.  (1) call by call: EVERY successful call of
+   _parse_block on the sugared sheet (any block type, any cursor position, skipped or not) yields with the
+   same fuel the desugaring of the rows from that position under the call's context, and the events it
+   logged have exactly the tokens of that desugared segment (LitSem: literal, balanced segments with their
+   tokens) — in particular a loop equals the block of its unrolled bodies under the same id *)
+Theorem C03_unrolling_call_by_call : forall pol tol rows f s bt omit s',
+  Blocks.parse_block pol ScopeRestore EmptySkip tol rows f s bt omit = Blocks.ROk s' ->
+  exists out evs,
+    Desugar.ds pol f (skipn (Blocks.p_pos s) rows) (Blocks.p_ctx s) bt omit = Blocks.ROk (out, skipn (Blocks.p_pos s') rows)
+    /\ Blocks.p_log s' = evs ++ Blocks.p_log s
+    /\ DesugarFacts.LitSem out (Desugar.toks (rev evs))
+    /\ (omit = true -> out = []).
+Proof. exact DesugarFacts.unroll_ok. Qed.
+Print Assumptions C03_unrolling_call_by_call.
+
+(* (2) the parser on a literal balanced segment lying at position q of ANY sheet, inside ANY block, under ANY
+   loop mechanics and context: it logs events with exactly the segment's tokens and goes on behind it *)
+Theorem C03_parser_on_desugared_segment : forall pol scope emp tol seg tk,
+  DesugarFacts.LitSem seg tk ->
+  forall rows q c0 lg, DesugarFacts.At rows q seg ->
+  exists evs', Desugar.toks (rev evs') = tk /\
+    forall bt f sfin,
+      Blocks.parse_block pol scope emp tol rows f (Blocks.mkP (q + length seg) c0 (evs' ++ lg)) bt false = Blocks.ROk sfin ->
+      exists f', Blocks.parse_block pol scope emp tol rows f' (Blocks.mkP q c0 lg) bt false = Blocks.ROk sfin.
+Proof. exact DesugarFacts.lit_run. Qed.
+Print Assumptions C03_parser_on_desugared_segment.
+
 (* ---- corollaries: what the desugaring IS (laws of Desugar.ds, any fuel) ---- *)
 
 (* rows under a false include_if and omitted blocks: the row disappears (its id and text do not occur
